@@ -129,7 +129,7 @@ pub fn c06(tier: Tier, replay: Option<String>) -> i32 {
     );
     ctx.assume("AUTO_INCREMENT counters are not part of the compared state (SQL permits gaps after failed statements)");
     let p = Profile { max_ops: 25, truncate: 1, ..Profile::default() };
-    let pb = Profile { max_ops: 50, big_keys: true, max_insert_rows: 10, ..Profile::default() };
+    let pb = Profile { max_ops: 50, big_keys: true, max_insert_rows: 10, prefill: true, ..Profile::default() };
     let cases = tier.pick(3000, 120_000);
     drive_hist(&ctx, &check, move || case_strategy(p.clone(), Some(pb.clone()), true), cases)
 }
@@ -198,7 +198,7 @@ pub fn c04(tier: Tier, replay: Option<String>) -> i32 {
          operation executed after DML in the same history; distinct by hash of schema+ops.",
     );
     let p = Profile { max_ops: 30, lifecycle: 4, ddl: 2, dml: 10, allow_auto_inc: true, ..Profile::default() };
-    let pb = Profile { max_ops: 60, lifecycle: 4, ddl: 1, dml: 12, big_keys: true, max_insert_rows: 12, allow_auto_inc: true, ..Profile::default() };
+    let pb = Profile { max_ops: 60, lifecycle: 4, ddl: 1, dml: 12, big_keys: true, max_insert_rows: 12, allow_auto_inc: true, prefill: true, ..Profile::default() };
     let cases = tier.pick(2500, 100_000);
     drive_hist(&ctx, &check, move || case_strategy(p.clone(), Some(pb.clone()), true), cases)
 }
